@@ -5,6 +5,7 @@
   Contract assumed of the supplied function: it returns only after its stop channel is closed.
 -/
 import BB.Model.Worker
+import BB.Core.Fair
 
 namespace BB.Props.C17
 open BB.Worker BB.LTS
@@ -295,6 +296,246 @@ theorem unheld_not_stuck (s : St) (h : Reach sys s) (hi : s.inst = true) (hh : h
       cases hr : s.fnReturned
       · exact ⟨.fnReturn, by simp [sys, step, hi, hr, hsc], by simp⟩
       · exact ⟨.finish, by simp [sys, step, hw, hr], by simp⟩
+
+/-! ### "every started instance is stopped once nobody holds it" as a leads-to theorem
+
+  From a point after which no new `Do` arrives and no done function is outstanding, along every run that is weakly
+  fair for the watcher's and the function's steps ("the function returns once its stop channel is closed" is the
+  `fnReturn` step), the instance is stopped and gone.  The measure follows the watcher's loop: at most six steps. -/
+
+def noDo : Act → Prop
+  | .do_ => False
+  | _ => True
+
+def mu (s : St) : Nat :=
+  match s.watcher with
+  | none => 0
+  | some .top => if s.wgCur.isSome then 5 else 3
+  | some (.waiting _) => if s.wgCur.isSome then 6 else 4
+  | some .stopping => if s.fnReturned then 1 else 2
+
+theorem held_of_pos {s : St} {id n : Nat} (h : s.cnt[id]? = some (n + 1)) : held s = true := by
+  simp only [held, List.any_eq_true, decide_eq_true_eq]
+  exact ⟨n + 1, List.mem_of_getElem? h, by omega⟩
+
+/-- without new `Do`s, an unheld instance stays unheld -/
+theorem unheld_stable (s s' : St) (a : Act) (ha : noDo a) (hs : sys.step s a = some s') (hh : held s = false) :
+    held s' = false := by
+  simp only [sys] at hs
+  cases a with
+  | do_ => exact absurd ha (by simp [noDo])
+  | done id =>
+    simp only [step] at hs
+    split at hs
+    · rename_i n hn; rw [held_of_pos hn] at hh; cases hh
+    · cases hs
+  | take =>
+    simp only [step] at hs
+    split at hs
+    · split at hs <;> (cases hs; exact hh)
+    · cases hs
+  | waited =>
+    simp only [step] at hs
+    split at hs
+    · split at hs
+      · cases hs; exact hh
+      · cases hs
+    · cases hs
+  | fnReturn =>
+    simp only [step] at hs
+    split at hs
+    · cases hs; exact hh
+    · cases hs
+  | finish =>
+    simp only [step] at hs
+    split at hs
+    · cases hs; exact hh
+    · cases hs
+
+/-- every watcher / function step of an unheld instance brings it closer to being gone -/
+theorem mu_step (s s' : St) (a : Act) (h : Inv s) (hh : held s = false) (ha : noDo a)
+    (hs : sys.step s a = some s') : s'.inst = false ∨ mu s' < mu s := by
+  simp only [sys] at hs
+  cases a with
+  | do_ => exact absurd ha (by simp [noDo])
+  | done id =>
+    simp only [step] at hs
+    split at hs
+    · rename_i n hn; rw [held_of_pos hn] at hh; cases hh
+    · cases hs
+  | take =>
+    simp only [step] at hs
+    split at hs
+    · rename_i hw
+      split at hs
+      · rename_i id hc; cases hs; right; simp [mu, hw, hc]
+      · rename_i hc; cases hs; right
+        have hr : s.fnReturned = false := by
+          cases hr : s.fnReturned with
+          | false => rfl
+          | true => have := (h.stopped (h.retStop hr)).1; rw [hw] at this; cases this
+        simp [mu, hw, hc, hr]
+    · cases hs
+  | waited =>
+    simp only [step] at hs
+    split at hs
+    · rename_i id hw
+      split at hs
+      · cases hs; right
+        cases hc : s.wgCur <;> simp [mu, hw, hc]
+      · cases hs
+    · cases hs
+  | fnReturn =>
+    simp only [step] at hs
+    split at hs
+    · rename_i hc
+      simp only [Bool.and_eq_true, Bool.not_eq_true'] at hc
+      cases hs; right
+      have hw := (h.stopped hc.2).1
+      simp [mu, hw, hc.1.2]
+    · cases hs
+  | finish =>
+    simp only [step] at hs
+    split at hs
+    · cases hs; left; rfl
+    · cases hs
+
+/-- **every started instance is stopped once nobody holds it**: from a point after which no new `Do` arrives and
+    no done function is outstanding, along every weakly fair run the instance is told to stop, its function
+    returns, and it is gone (`inst = false`, hence by the invariant no live function goroutine) -/
+theorem unheld_instance_is_eventually_stopped (r : Run sys) (hfair : WeakFair sys (fun _ a => noDo a) r)
+    (i0 : Nat) (hquiet : ∀ k, i0 ≤ k → ∀ a, r.act k = some a → noDo a)
+    (i : Nat) (hi : i0 ≤ i) (hh : held (r.st i) = false) :
+    ∃ k, i ≤ k ∧ (r.st k).inst = false ∧ (r.st k).live = 0 := by
+  have key := leadsTo_from sys (fun _ a => noDo a) r Inv (fun s => s.inst = false ∨ held s = true) mu noDo i0 hquiet hfair
+    (fun k => inv_reach _ (run_reach sys r k))
+    (fun s hI hnG => by
+      have hinst : s.inst = true := by cases hx : s.inst with | true => rfl | false => exact absurd (Or.inl hx) hnG
+      have hheld : held s = false := by cases hx : held s with | false => rfl | true => exact absurd (Or.inr hx) hnG
+      have hz : ∀ id, id < s.cnt.length → s.cnt[id]? = some 0 := by
+        intro id hid
+        simp only [held] at hheld
+        have := (List.any_eq_false.mp hheld) s.cnt[id] (List.getElem_mem hid)
+        rw [List.getElem?_eq_getElem hid]; congr 1; simpa using this
+      cases hw : s.watcher with
+      | none => exact absurd hw (hI.hasInst hinst).1
+      | some pc =>
+        cases pc with
+        | top =>
+          cases hc : s.wgCur with
+          | some id => exact ⟨.take, trivial, by simp [enabled, sys, step, hw, hc]⟩
+          | none => exact ⟨.take, trivial, by simp [enabled, sys, step, hw, hc]⟩
+        | waiting id =>
+          have hid : id < s.cnt.length := hI.waitValid id hw
+          exact ⟨.waited, trivial, by simp [enabled, sys, step, hw, hz id hid]⟩
+        | stopping =>
+          have hsc := hI.stopping hw
+          cases hr : s.fnReturned
+          · exact ⟨.fnReturn, trivial, by simp [enabled, sys, step, hinst, hr, hsc]⟩
+          · exact ⟨.finish, trivial, by simp [enabled, sys, step, hw, hr]⟩)
+    (fun s a s' hI hnG hA hs => by
+      have hheld : held s = false := by cases hx : held s with | false => rfl | true => exact absurd (Or.inr hx) hnG
+      rcases mu_step s s' a hI hheld hA hs with h | h
+      · exact Or.inl (Or.inl h)
+      · exact Or.inr (Nat.le_of_lt h))
+    (fun s a s' hI hnG hA _ hs => by
+      have hheld : held s = false := by cases hx : held s with | false => rfl | true => exact absurd (Or.inr hx) hnG
+      rcases mu_step s s' a hI hheld hA hs with h | h
+      · exact Or.inl (Or.inl h)
+      · exact Or.inr h)
+  have stay : ∀ k, held (r.st (i + k)) = false := by
+    intro k
+    induction k with
+    | zero => exact hh
+    | succ k ih =>
+      have hn := r.next (i + k)
+      rw [show i + (k + 1) = i + k + 1 by omega]
+      cases ha : r.act (i + k) with
+      | none => simp only [ha] at hn; rw [hn]; exact ih
+      | some a =>
+        simp only [ha] at hn
+        exact unheld_stable _ _ a (hquiet _ (by omega) a ha) hn ih
+  obtain ⟨k, hk, hg⟩ := key i hi
+  have hk' := stay (k - i)
+  rw [show i + (k - i) = k by omega] at hk'
+  rcases hg with hg | hg
+  · exact ⟨k, hk, hg, ((inv_reach _ (run_reach sys r k)).noInst hg).2.2.2.1⟩
+  · rw [hk'] at hg; cases hg
+
+/-! non-vacuity of the leads-to theorem: one holder, then nothing more; the run is weakly fair -/
+def demoActs : Nat → Option Act
+  | 0 => some .do_ | 1 => some .take | 2 => some (.done 0) | 3 => some .waited | 4 => some .take
+  | 5 => some .fnReturn | 6 => some .finish | _ => none
+
+def demoSt : Nat → St
+  | 0 => sys.init
+  | k + 1 => match demoActs k with
+    | some a => (sys.step (demoSt k) a).getD (demoSt k)
+    | none => demoSt k
+
+theorem demoSt_final (k : Nat) : demoSt (k + 7) = demoSt 7 := by
+  induction k with
+  | zero => rfl
+  | succ k ih => show demoSt (k + 7) = demoSt 7; exact ih
+
+def demoRun : Run sys where
+  st := demoSt
+  act := demoActs
+  start := rfl
+  next := by
+    intro i
+    match i with
+    | 0 => show sys.step (demoSt 0) _ = some (demoSt 1); decide
+    | 1 => show sys.step (demoSt 1) _ = some (demoSt 2); decide
+    | 2 => show sys.step (demoSt 2) _ = some (demoSt 3); decide
+    | 3 => show sys.step (demoSt 3) _ = some (demoSt 4); decide
+    | 4 => show sys.step (demoSt 4) _ = some (demoSt 5); decide
+    | 5 => show sys.step (demoSt 5) _ = some (demoSt 6); decide
+    | 6 => show sys.step (demoSt 6) _ = some (demoSt 7); decide
+    | k + 7 => rfl
+
+theorem demoRun_fair : WeakFair sys (fun _ a => noDo a) demoRun := by
+  intro i hen
+  by_cases hi : i < 7
+  · refine ⟨max i 1, by omega, ?_⟩
+    match i, hi with
+    | 0, _ => exact ⟨_, rfl, trivial⟩
+    | 1, _ => exact ⟨_, rfl, trivial⟩
+    | 2, _ => exact ⟨_, rfl, trivial⟩
+    | 3, _ => exact ⟨_, rfl, trivial⟩
+    | 4, _ => exact ⟨_, rfl, trivial⟩
+    | 5, _ => exact ⟨_, rfl, trivial⟩
+    | 6, _ => exact ⟨_, rfl, trivial⟩
+  · exfalso
+    obtain ⟨a, hH, he⟩ := hen i (Nat.le_refl _)
+    have hst : demoRun.st i = demoSt 7 := by
+      have := demoSt_final (i - 7); rwa [show i - 7 + 7 = i by omega] at this
+    rw [hst] at he
+    cases a with
+    | do_ => exact hH
+    | done k =>
+      have hc : (demoSt 7).cnt = [0] := by decide
+      simp only [enabled, sys, step, hc] at he
+      match k with
+      | 0 => simp at he
+      | k + 1 => simp at he
+    | take => exact absurd he (by unfold enabled; decide)
+    | waited => exact absurd he (by unfold enabled; decide)
+    | fnReturn => exact absurd he (by unfold enabled; decide)
+    | finish => exact absurd he (by unfold enabled; decide)
+
+example : ∃ k, 3 ≤ k ∧ (demoRun.st k).inst = false ∧ (demoRun.st k).live = 0 :=
+  unheld_instance_is_eventually_stopped demoRun demoRun_fair 1
+    (fun k hk a ha => by
+      match k, hk with
+      | 1, _ => cases ha; trivial
+      | 2, _ => cases ha; trivial
+      | 3, _ => cases ha; trivial
+      | 4, _ => cases ha; trivial
+      | 5, _ => cases ha; trivial
+      | 6, _ => cases ha; trivial
+      | k + 7, _ => cases ha)
+    3 (by omega) (by decide)
 
 /-! non-vacuity: two holders, the second arrives after the watcher took the first wait group; the
     instance is stopped only after both are done; a Do during stopping is refused, then a fresh instance -/
